@@ -41,7 +41,7 @@ var c11Scripts = []c11Script{
 	{"nested-pcall", `local function deep(d) if d == 0 then while true do emit("d", d) end end return pcall(deep, d - 1) end deep(4)`, false, 6},
 	{"meta-index-rec", `local mt = {} mt.__index = function(t, k) emit("i", k) return t[k + 1] end local o = setmetatable({}, mt) local x = o[1]`, false, 40},
 	{"meta-add-loop", `local mt = {} mt.__add = function(a, b) local c = 0 while true do c = c + 1 if c % 13 == 0 then emit("a", c) end end end local o = setmetatable({}, mt) local x = o + 1`, false, 2},
-	{"gsub-callback", `local n = 0 while true do (("abc"):gsub(".", function(c) n = n + 1 if n % 4 == 0 then emit("s", n) end return c end)) end`, false, 2},
+	{"gsub-callback", `local n = 0 while true do local _ = ("abc"):gsub(".", function(c) n = n + 1 if n % 4 == 0 then emit("s", n) end return c end) end`, false, 2},
 	{"sort-comparator", `local n = 0 while true do local t = {5, 3, 4, 1, 2} table.sort(t, function(a, b) n = n + 1 if n % 8 == 0 then emit("c", n) end return a < b end) end`, false, 2},
 	{"iterator", `local function it(s, c) emit("it", c) return c + 1 end for i in it, nil, 0 do end`, false, 2},
 	{"closure-churn", `local fs = {} local i = 0 while true do i = i + 1 local v = i fs[i % 4] = function() return v end if i % 5 == 0 then emit("c", fs[0] and fs[0]()) end end`, false, 1},
